@@ -341,6 +341,24 @@ def sc_send_short_on_signal(B):
     return [('short', 0 < n < len(big))]
 
 
+def sc_recv_waitall_short_on_signal(B):
+    # recv(n, MSG_WAITALL) returns the bytes copied so far when a handled signal interrupts it after part of the data arrived
+    l, c, s = pair(B)
+    c.sendall(b'a' * 10)
+    B.settle()
+    B.alarm(0.2)
+    d = s.recv(100, B.socket.MSG_WAITALL)
+    o = [('short', d)]
+    # ... and everything asked for when the rest is already there
+    c.sendall(b'b' * 30)
+    B.settle()
+    o.append(('full', s.recv(20, B.socket.MSG_WAITALL)))
+    c.close()
+    B.settle()
+    o.append(('eof-short', s.recv(20, B.socket.MSG_WAITALL)))
+    return o
+
+
 SCENARIOS = [v for k, v in sorted(globals().items()) if k.startswith('sc_')]
 
 
